@@ -346,3 +346,59 @@ C09_UNITS = [
   + _pick("C13", ("mutex_cancel_in_guard", "mutex_panic_cancel_pending"), "poison_") \
   + _pick("C15", ("reuse_park_cancel", "reuse_sleep_cancel", "reuse_select_cancel"), "innocent_")
 PROPS["C09"] = dict(assumptions=["socket read/accept/connect cancellation is decided with C18"], units=C09_UNITS)
+
+# ---------------------------------------------------------------------------------------------
+# C03 / C04 / C19: the lock-free queues of may_queue
+# ---------------------------------------------------------------------------------------------
+QLIN = ("spec/l0/QueueLin.tla", "spec/l0/QueueLin.cfg")
+def qa(name, prog):
+    return dict(name=name, prog=prog)
+def qunit(name, kind, start, actors, n=400, prefill=0, **kw):
+    return dict(name=name, scenario="queue", params=dict(kind=kind, start=start, prefill=prefill, actors=actors, workers=2, **kw),
+                trace_spec=QLIN, trace_reject_is_violation=True,
+                quick=dict(explore=dict(n=n), dfs=dict(max=n, pb=2)),
+                thorough=dict(explore=dict(n=10 * n), dfs=dict(max=10 * n, pb=3)))
+C03_UNITS = [
+    dict(name="mpsc_spec", tlc=[("spec/l0/MpscQueue.tla", "spec/l0/MCMpscQueue.cfg")]),
+    dict(name="spsc_spec", tlc=[("spec/l0/SpscQueue.tla", "spec/l0/MCSpscQueue.cfg")]),
+    qunit("mpsc_mid", "mpsc", 30, [qa("p1", ["push", "push"]), qa("p2", ["push", "push"]), qa("c", ["pop", "len", "pop", "bulk", "empty"])]),
+    qunit("mpsc_boundary", "mpsc", 62, [qa("p1", ["push", "push"]), qa("p2", ["push", "push"]), qa("c", ["pop", "pop", "bulk", "pop"])]),
+    qunit("mpsc_boundary3", "mpsc", 61, [qa("p1", ["push", "push"]), qa("p2", ["push"]), qa("p3", ["push", "push"]), qa("c", ["bulk", "pop", "bulk", "len"])]),
+    qunit("mpsc_fresh", "mpsc", 0, [qa("p1", ["push"]), qa("p2", ["push"]), qa("c", ["empty", "pop", "len", "pop", "pop"])]),
+    qunit("spsc_mid", "spsc", 5, [qa("p1", ["push", "push", "push", "push"]), qa("c", ["pop", "len", "bulk", "pop", "empty", "pop"])]),
+    qunit("spsc_boundary", "spsc", 30, [qa("p1", ["push", "push", "push", "push"]), qa("c", ["pop", "len", "bulk", "pop", "empty", "pop"])]),
+    qunit("spsc_boundary2", "spsc", 31, [qa("p1", ["push", "push", "push"]), qa("c", ["bulk", "pop", "bulk", "pop"])]),
+    # the producer is almost two blocks ahead: the block the consumer drains is the next one the producer recycles
+    qunit("spsc_recycle", "spsc", 32, [qa("p1", ["push", "push", "push"]), qa("c", ["bulk", "pop", "bulk"])], prefill=63),
+    qunit("spsc_recycle_pop", "spsc", 63, [qa("p1", ["push", "push", "push"]), qa("c", ["pop", "pop", "bulk"])], prefill=63),
+    qunit("mpsc_ahead", "mpsc", 62, [qa("p1", ["push", "push"]), qa("p2", ["push"]), qa("c", ["pop", "bulk", "pop", "bulk"])], prefill=66),
+]
+PROPS["C03"] = dict(assumptions=["sequentially consistent memory; block size of the real code (32/64), model block size 2-4"], units=C03_UNITS)
+C04_UNITS = [
+    dict(name="spmc_spec", tlc=[("spec/l0/MCSpmcQueue.tla", "spec/l0/MCSpmcQueue.cfg"), ("spec/l0/MCSpmcQueue.tla", "spec/l0/MCSpmcQueue_ABA.cfg")]),
+    qunit("steal_boundary", "steal", 29, [qa("o", ["push", "push", "push", "lpop", "push", "lpop", "lpop"]), qa("s1", ["steal", "steal"]), qa("s2", ["steal"])]),
+    qunit("steal_mid", "steal", 3, [qa("o", ["push", "push", "lpop", "push", "push", "lpop"]), qa("s1", ["steal"]), qa("s2", ["steal", "steal"])]),
+    qunit("steal_last_slot", "steal", 30, [qa("o", ["push", "push", "lpop", "push", "lpop"]), qa("s1", ["steal", "steal"])]),
+    qunit("spmcq_boundary", "spmcq", 30, [qa("o", ["push", "push", "push", "push"]), qa("s1", ["pop", "pop"]), qa("s2", ["bulk", "pop"])]),
+    qunit("steal_ahead", "steal", 30, [qa("o", ["push", "lpop", "push", "lpop"]), qa("s1", ["steal"]), qa("s2", ["steal", "steal"])], prefill=34),
+    qunit("spmcq_ahead", "spmcq", 31, [qa("o", ["push", "push"]), qa("s1", ["pop", "bulk"]), qa("s2", ["bulk", "pop"])], prefill=33),
+    # ABA: the stealer is held right before its CAS on head while the owner works through two blocks; the harness'
+    # allocator hands the freed block out again at the same address, so the stale CAS succeeds on the new incarnation
+    qunit("steal_aba", "steal", 0, [qa("o", ["lpop"] * 3 + ["push", "lpop"] * 61 + ["push", "push", "push", "lpop", "lpop", "lpop"]), qa("s1", ["steal"])],
+          n=60, prefill=3, lifo_alloc=True,
+          holds=[dict(actor="s1", site="q.cas", nth=1, until_actor="o", until_site="qh.op", until_n=127)]),
+    qunit("spmcq_aba", "spmcq", 0, [qa("o", ["push"] * 66), qa("s1", ["pop"]), qa("s2", ["bulk"] * 4 + ["pop"] * 3)],
+          n=60, prefill=2, lifo_alloc=True,
+          holds=[dict(actor="s1", site="q.cas", nth=1, until_actor="o", until_site="qh.op", until_n=64)]),
+    qunit("spmcq_mid", "spmcq", 7, [qa("o", ["push", "push", "push"]), qa("s1", ["pop", "bulk"]), qa("s2", ["pop", "pop"]), qa("s3", ["bulk"])]),
+]
+PROPS["C04"] = dict(assumptions=["sequentially consistent memory"], units=C04_UNITS)
+C19_UNITS = [
+    dict(name="tlist_spec", tlc=[("spec/l0/MCTimerList.tla", "spec/l0/MCTimerList.cfg"), ("spec/l0/MCTimerList.tla", "spec/l0/MCTimerList_c2.cfg"),
+                                  ("spec/l0/MCTimerList.tla", "spec/l0/MCTimerList_c3.cfg")]),
+    qunit("tlist_mix", "tlist", 0, [qa("p1", ["push", "push"]), qa("p2", ["push"]), qa("c", ["peek", "rm0", "pop", "rm1", "popif_even", "pop", "rm2", "pop"])]),
+    qunit("tlist_rm", "tlist", 2, [qa("p1", ["push", "push"]), qa("p2", ["push", "push"]), qa("c", ["rm1", "rm0", "pop", "rm3", "rm2", "pop", "empty"])]),
+    qunit("tlist_prefilled", "tlist", 1, [qa("p1", ["push"]), qa("p2", ["push"]), qa("c", ["rm1", "pop", "rm2", "rm0", "pop", "peek", "pop"])], prefill=3),
+    qunit("tlist_pop", "tlist", 0, [qa("p1", ["push", "push"]), qa("p2", ["push"]), qa("p3", ["push"]), qa("c", ["pop", "popif_any", "peek", "pop", "pop", "empty"])]),
+]
+PROPS["C19"] = dict(assumptions=["sequentially consistent memory; remove() is called by the consumer only (as in the timer thread)"], units=C19_UNITS)
